@@ -14,7 +14,8 @@
 (* policy that is enforced must be the whole file's.                       *)
 (* Dev (never in the code; self-test / seeded changes): "ExecBeforeLoad",  *)
 (* "IgnoreLoadError", "TruncatedRead" (only a prefix of a big file is      *)
-(* parsed)                                                                 *)
+(* parsed), "ZeroMeansUnset" (a default action of kill_thread - numeric    *)
+(* value 0 - is taken for "not given" and replaced by errno)               *)
 (***************************************************************************)
 EXTENDS Integers, Sequences, TLC
 CONSTANTS Faults, Dev
@@ -72,6 +73,22 @@ FailureExitsNonZeroWithoutTarget ==
 \* the target only ever runs under the policy of the whole file
 WholeFileEnforced == targetStarted => complete
 HappyPathRuns == (pc = "exited" /\ fault = "none") => (exitCode = 0 /\ targetStarted)
+---------------------------------------------------------------------------
+(* "the target observes exactly the policy's decisions", per action: what  *)
+(* a thread of the target sees when the filter answers its system call     *)
+(* with action a (no tracer attached; the probe calls do not exist in the  *)
+(* kernel, so "runs" shows as ENOSYS).                                     *)
+Actions == {"kill_thread", "kill_process", "trap", "errno", "trace", "log", "allow"}
+Observes(a) == CASE a \in {"allow", "log"} -> "runs"
+                 [] a = "trace" -> "ENOSYS"            \* no tracer: the kernel fails the call with ENOSYS
+                 [] a = "errno" -> "EPERM"
+                 [] a = "kill_thread" -> "thread gone"
+                 [] a = "kill_process" -> "process killed by SIGSYS"
+                 [] a = "trap" -> "SIGSYS delivered"
+\* parsePolicy hands the unpacked policy to LoadFilter as it is
+Enforced(a) == IF "ZeroMeansUnset" \in Dev /\ a = "kill_thread" THEN "errno" ELSE a
+PolicyAsWritten == \A a \in Actions : Observes(Enforced(a)) = Observes(a)
+
 \* the strace view: no execve of the target before a successful seccomp
 TraceOrder ==
   \A i \in 1..Len(events) : events[i] = "execve-target" => \E j \in 1..(i - 1) : events[j] = "seccomp-ok"
